@@ -99,6 +99,8 @@ impl ClnDatastore {
 impl Datastore for ClnDatastore {
     #[instrument(level = "trace", skip(self))]
     async fn add_payment_attempt(&self, trampoline: &TrampolineInfo) -> Result<AttemptId> {
+        #[cfg(breez_trampoline_verif)]
+        use crate::verif::seam::std;
         let now = std::time::SystemTime::now()
             .duration_since(std::time::UNIX_EPOCH)
             .context("duration since unix epoch should always work")
